@@ -13,7 +13,7 @@ fixed_lines = 1          # every script starts with `t reset`
 lean_modules = ["Driver.Types"]
 rule = ("one script = one process = one registry history: 't reset' then registrations ('t basic size', 't generic size [if]', "
         "'t iface name', 't meta name') interleaved with lookups by id ('t traits|itraits|mtraits id', 't size id' for built-ins, "
-        "'t sweep' = every id 0..0x1100 plus all named entries) and by name ('t named name len', 't alias text', 't alias0 text' = without the end output). Stream 1 "
+        "'t sweep' = every id 0..0x1100 plus all named entries, and the ids whose description OBJECT is no longer the one handed out first: the driver records the pointer of every description at its first sighting) and by name ('t named name len', 't alias text', 't alias0 text' = without the end output); 't rawdata' = the get-or-register helper mpt_rawdata_type_traits(). Stream 1 "
         "(exhaustive): every built-in id, every id sweep on the fresh registry, every integer size 0..17, every message format byte 0..255 and type id -2..299 through mpt_msgvalfmt_*. Stream 2: fill each of "
         "the four ranges to capacity -1/0/+2 (64/48/1791/1792), chunk boundaries at multiples of 30, name length 0..5, duplicate / "
         "cross-kind / built-in / short-name collisions, length-limited lookups around the stored length. Stream 3: random "
@@ -127,21 +127,39 @@ def scripts(tier, seed, scale=1):
         ops.append("t sweep")
         out.append(S("names:%s" % first, ops))
     al = ["logger", "log", "logger:sym", "log:sym", "logger : sym", "logger \t:  sym x", ":sym", " :sym", "  : ", "nosuch:sym", "metatype:", "meta", "meta:x",
-          "my.type:lib.so", "my.type", "my.typ:x", "my.type:", "a:b:c", "iter"]
+          "my.type:lib.so", "my.type", "my.typ:x", "my.type:", "a:b:c", "iter", "out", "output", "iterator", "metatype", "convertable", "lo", "logg", "iter ", "outp"]
     out.append(S("alias", ["t meta %s" % hx("my.type")] + ["t alias %s" % hx(a) for a in al]))
     out.append(S("alias:noend", ["t meta %s" % hx("my.type")] + ["t alias0 %s" % hx(a) for a in al]))
     out.append(S("alias:fresh", ["t alias %s" % hx(a) for a in al]))
+    # the "get or register" helper of mptplot: the same entry on every call, also when the name is taken / the range full
+    out.append(S("rawdata", ["t rawdata", "t rawdata", "t iface %s" % hx("mpt.rawdata"), "t named %s -1" % hx("mpt.rawdata"), "t rawdata", "t sweep"]))
+    out.append(S("rawdata:taken", ["t meta %s" % hx("mpt.rawdata"), "t rawdata", "t rawdata", "t sweep"]))
+    out.append(S("rawdata:full", [add_op("iface", k) for k in range(48)] + ["t rawdata", "t rawdata", "t sweep"]))
+    # description objects: an id keeps resolving to the object handed out first (the driver records the pointer of every
+    # description at its first sighting; `t sweep` lists the ids that resolve to another object).  Other allocations are
+    # interleaved with the registrations, sweeps sit on both sides of every multiple of 16 and of the chunk size 30.
+    for kind in ("basic", "generic", "meta", "iface"):
+        ops = []
+        for k in range(CAP[kind] + 1 if kind in ("basic", "iface") else 100):
+            ops.append(add_op(kind, k))
+            ops.append("t %s %s" % ("meta" if kind != "meta" else "iface", hx("obj.%s.%03d" % (kind, k))) if k % 3 == 0 else "t traits %d" % (BASE[kind] + k))
+            if k % 16 in (15, 0, 1) or k % 30 in (29, 0, 1):
+                ops.append("t sweep")
+        ops.append("t sweep")
+        out.append(S("objects:%s" % kind, ops))
     # ---- stream 3: random histories
     r = gen.rng(id, tier, seed, "random")
     nhist = (200 if not thorough else 2000) * scale
     for h in range(nhist):
         ops = []
-        pool = ["logger", "metatype", "iterator", "log", "meta", "abc", "abcd"]
+        pool = ["logger", "metatype", "iterator", "log", "meta", "iter", "out", "abc", "abcd"]
         regs = []
         n = r.choice([10, 40, 120, 300]) if not thorough else r.choice([10, 40, 120, 400, 2200])
         heavy = r.choice(["basic", "iface", "meta", "generic", None])
         for k in range(n):
             kind = r.choice(["basic", "generic", "iface", "meta", "lookup", "lookup", "name", "alias"])
+            if r.random() < 0.02:
+                ops.append("t rawdata")
             if heavy and r.random() < 0.6:
                 kind = heavy
             if kind == "basic":
